@@ -289,7 +289,7 @@ PLANS["C03"] = {
     "level": "model_checking",
     "assumptions": L1_ASSUME,
     "stages": [
-        T("bulk", "bulk", (36, 240), ["InvC03", "InvBackendsAgree"], backends="bolt,badger", chunk=3, heap="6g"),
+        T("bulk", "bulk", (36, 240), ["InvC03", "InvC03Pair", "InvBackendsAgree"], backends="bolt,badger", chunk=3, heap="6g"),
         T("bulkbig", "bulkbig", (0, 40), ["InvC03"], backends="bolt,badger", chunk=1, heap="10g", tier="thorough"),
         T("general", "general", (30, 600), ["InvC03"]),
         # DropCollection among collections whose names are prefixes of each other
